@@ -406,12 +406,14 @@ func run(t *rapid.T, r *rec.Recorder) {
 	base := m.BaseActions()
 	acts := map[string]func(*rapid.T){
 		"send": base["send"], "send2": base["send"], "tick": base["tick"], "tick2": base["tick"], "update": base["update"], "update2": base["update"],
-		"recvAltered":  m.Wrap(c.recvAltered),
-		"recvAltered2": m.Wrap(c.recvAltered),
-		"recvAltered3": m.Wrap(c.recvAltered),
-		"ackAltered":   m.Wrap(c.ackAltered),
-		"ackAltered2":  m.Wrap(c.ackAltered),
-		"":             func(t *rapid.T) { m.T = t; m.R.Step() },
+		"recvAltered":     m.Wrap(c.recvAltered),
+		"recvAltered2":    m.Wrap(c.recvAltered),
+		"recvAltered3":    m.Wrap(c.recvAltered),
+		"toggleRoundTrip": m.Wrap(m.ActToggleRoundTrip),
+		"upgradeLower":    m.Wrap(m.ActUpgradeLower),
+		"ackAltered":      m.Wrap(c.ackAltered),
+		"ackAltered2":     m.Wrap(c.ackAltered),
+		"":                func(t *rapid.T) { m.T = t; m.R.Step() },
 	}
 	t.Repeat(acts)
 	var ks []string
